@@ -145,8 +145,9 @@ impl World {
     match r {
       Ok(()) => {
         if already {
-          rec.violation("double-puncture-accepted", format!("tag {} punctured twice without an error", tag), self.replay(json!({"tag": tag})));
-          return false;
+          // (the statement of this property does not say what a second puncture of the same tag
+          // returns - that is C10's business at the key level; here it is a no-op for the model)
+          rec.ev("double_puncture_accepted");
         }
         self.insts[i].1.punctured.insert(tag);
       }
